@@ -474,8 +474,13 @@ class Interp(object):
                 outcome = ("bound", e.reason)
             except UnsupportedConstruct as e:
                 outcome = ("unsupported", e.reason)
+                if os.environ.get("PSX_DEBUG"):
+                    import traceback
+                    sys.stderr.write("[psx] UNSUPPORTED: %s\n%s\n" % (e.reason, "".join(traceback.format_tb(e.__traceback__)[-6:])))
             except EngineBug as e:
                 outcome = ("enginebug", e.reason)
+                if os.environ.get("PSX_DEBUG"):
+                    sys.stderr.write("[psx] ENGINE BUG: %s\n" % e.reason)
             npaths += 1
             if outcome[0] in ("ok", "exc"):
                 try:
@@ -1099,7 +1104,8 @@ class Interp(object):
         if isinstance(e, RecursionError):
             return False
         if isinstance(e, Exception) and not is_program_exc(e):
-            raise EngineBug("engine failure inside interpreted code: %s: %s" % (type(e).__name__, e)) from e
+            import traceback
+            raise EngineBug("engine failure inside interpreted code: %s: %s\n%s" % (type(e).__name__, e, "".join(traceback.format_exception(type(e), e, e.__traceback__))[-1800:])) from e
         return isinstance(e, Exception)
 
     def ex_Try(self, st, fr):
